@@ -43,7 +43,7 @@ impl Property for C16 {
     }
     fn runs(&self, tier: Tier) -> u64 {
         match tier {
-            Tier::Quick => 300_000,
+            Tier::Quick => 400_000,
             Tier::Thorough => 10_000_000,
         }
     }
